@@ -355,6 +355,11 @@ def parse_cmd_pkt(line: bytes) -> tuple[bytes, list[bytes]]:
     return cmd, args[:-1].split(b"\0")
 
 
+# Maximum size of the payload of a single pkt-line: 65520 bytes in total,
+# including the four-byte length prefix.
+MAX_PKT_LINE_DATA = 65520 - 4
+
+
 def pkt_line(data: bytes | None) -> bytes:
     """Wrap data in a pkt-line.
 
@@ -362,9 +367,19 @@ def pkt_line(data: bytes | None) -> bytes:
       data: The data to wrap, as a str or None.
     Returns: The data prefixed with its length in pkt-line format; if data was
         None, returns the flush-pkt ('0000').
+
+    Raises:
+      ValueError: if data is too large to fit in a single pkt-line.
     """
     if data is None:
         return b"0000"
+    if len(data) > MAX_PKT_LINE_DATA:
+        # The length prefix is exactly four hex digits and a pkt-line may not
+        # exceed 65520 bytes; anything larger would be a malformed frame.
+        raise ValueError(
+            f"pkt-line payload of {len(data)} bytes exceeds maximum of "
+            f"{MAX_PKT_LINE_DATA} bytes"
+        )
     return f"{len(data) + 4:04x}".encode("ascii") + data
 
 
